@@ -39,8 +39,20 @@ def item_fix_rule(repo, out):
     if len(bef) != 1 or len(bef[0].body) != 1 or not isinstance(bef[0].body[0], ast.Return):
         raise TranslateError('visdatav4: _before helper not of the expected shape')
     src = ast.unparse(bef[0].body[0].value).replace(' ', '')
-    if src != 'source.timestamps[0]<katpoint.Timestamp(date).secs':
+    if src != 'capture_start<katpoint.Timestamp(date).secs':
         raise TranslateError('visdatav4: _before is %s' % src)
+    # capture_start must be the first timestamp of the CAPTURE (recorded by the data source before preselection)
+    srcs = [ast.unparse(n).replace(' ', '') for n in init.body]
+    for need in ("capture_start=getattr(source,'capture_start',None)",
+                 'capture_start=source.timestamps[0]ifcapture_startisNoneelsecapture_start+self.time_offset'):
+        if need not in srcs:
+            raise TranslateError('visdatav4: capture_start is not computed as expected (%s)' % need)
+    ds = _func(_class(_parse(repo, 'katdal/datasources.py'), 'TelstateDataSource', 'katdal/datasources.py'), '__init__', 'katdal/datasources.py')
+    dsrc = [ast.unparse(n).replace(' ', '') for n in ds.body]
+    rec = 'capture_start=timestamps[0]iflen(timestamps)elseNone'
+    pre = [k for k, x in enumerate(dsrc) if x.startswith("if'dumps'inpreselect:")]
+    if not (rec in dsrc and pre and dsrc.index(rec) < pre[0] and 'self.capture_start=capture_start' in dsrc):
+        raise TranslateError('datasources: capture_start is not recorded before the dump preselection')
     markers = {}
     rule = None
     fix_body = None
